@@ -49,8 +49,15 @@ pub struct ProxyCtl {
     pub truncated: bool,
 }
 
-async fn proxy(mut m: VerifPeer, mut o: VerifPeer, ctl: Arc<Mutex<ProxyCtl>>, wake: Arc<tokio::sync::Notify>, start: tokio::time::Instant) {
-    let mut queue: [VecDeque<(tokio::time::Instant, Vec<u8>)>; 2] = [VecDeque::new(), VecDeque::new()];
+async fn proxy(
+    mut m: VerifPeer,
+    mut o: VerifPeer,
+    ctl: Arc<Mutex<ProxyCtl>>,
+    wake: Arc<tokio::sync::Notify>,
+    start: tokio::time::Instant,
+) {
+    let mut queue: [VecDeque<(tokio::time::Instant, Vec<u8>)>; 2] =
+        [VecDeque::new(), VecDeque::new()];
     let mut last_due: [tokio::time::Instant; 2] = [start, start];
     let mut chunk_pos = [0usize; 2];
     let mut m_open = true;
@@ -69,7 +76,9 @@ async fn proxy(mut m: VerifPeer, mut o: VerifPeer, ctl: Arc<Mutex<ProxyCtl>>, wa
         {
             let mut c = ctl.lock().unwrap();
             let inj = std::mem::take(&mut c.inject);
-            let t_ms = tokio::time::Instant::now().duration_since(start).as_millis() as u64;
+            let t_ms = tokio::time::Instant::now()
+                .duration_since(start)
+                .as_millis() as u64;
             for (dir, bytes) in inj {
                 c.log.push((t_ms, dir | 0x80, bytes.clone()));
                 let dst = if dir == 0 { &o } else { &m };
@@ -211,10 +220,24 @@ impl PairRig {
         let polls = Polls::default();
         // ---- outstation
         let shared = Shared::new(beh, start);
-        let modes = LinkModes::stream(if cfg.out.discard { LinkErrorMode::Discard } else { LinkErrorMode::Close });
+        let modes = LinkModes::stream(if cfg.out.discard {
+            LinkErrorMode::Discard
+        } else {
+            LinkErrorMode::Close
+        });
         let (app, info, controls) = callbacks(&shared);
-        let (task, out_handle) = OutstationTask::create(Enabled::Yes, modes, ParseOptions::default(), cfg.out.to_lib(), PhysAddr::None, app, info, controls);
-        let (mut server, sessions) = ServerTask::create(Session::outstation(task), NullListener::create());
+        let (task, out_handle) = OutstationTask::create(
+            Enabled::Yes,
+            modes,
+            ParseOptions::default(),
+            cfg.out.to_lib(),
+            PhysAddr::None,
+            app,
+            info,
+            controls,
+        );
+        let (mut server, sessions) =
+            ServerTask::create(Session::outstation(task), NullListener::create());
         let out_task = tokio::spawn(Counted::new(
             async move {
                 let _ = server.run().await;
@@ -223,11 +246,26 @@ impl PairRig {
         ));
         // ---- master
         let mut mc = MasterChannelConfig::new(EndpointAddress::raw(MASTER_ADDR));
-        mc.decode_level = super::decode_level(cfg.master_decode[0], cfg.master_decode[1], cfg.master_decode[2], cfg.master_decode[3]);
+        mc.decode_level = super::decode_level(
+            cfg.master_decode[0],
+            cfg.master_decode[1],
+            cfg.master_decode[2],
+            cfg.master_decode[3],
+        );
         mc.tx_buffer_size = BufferSize::new(cfg.master_tx.max(249) as usize).unwrap();
         mc.rx_buffer_size = BufferSize::new(cfg.master_rx.max(249) as usize).unwrap();
         let (tx, rx) = crate::util::channel::request_channel();
-        let mtask = MasterTask::new(Enabled::Yes, LinkModes::stream(if cfg.master_discard { LinkErrorMode::Discard } else { LinkErrorMode::Close }), ParseOptions::default(), mc, rx);
+        let mtask = MasterTask::new(
+            Enabled::Yes,
+            LinkModes::stream(if cfg.master_discard {
+                LinkErrorMode::Discard
+            } else {
+                LinkErrorMode::Close
+            }),
+            ParseOptions::default(),
+            mc,
+            rx,
+        );
         let mut channel = MasterChannel::new(tx, MasterChannelType::Stream);
         let (conns, mut conn_rx) = tokio::sync::mpsc::unbounded_channel::<PhysLayer>();
         let master_task = tokio::spawn(Counted::new(
@@ -259,14 +297,35 @@ impl PairRig {
         ));
         // ---- association
         let read = RecHandler::default();
-        let info = InfoLog { log: Default::default(), start: Some(start) };
-        let clock = Clock { offset: Arc::new(Mutex::new(clock_offset)), start };
+        let info = InfoLog {
+            log: Default::default(),
+            start: Some(start),
+        };
+        let clock = Clock {
+            offset: Arc::new(Mutex::new(clock_offset)),
+            start,
+        };
         let (r, i, c) = (read.clone(), info.clone(), clock.clone());
         let acfg = cfg.assoc;
         let mut ch = channel.clone();
-        let jh = tokio::spawn(Counted::new(async move { ch.add_association(EndpointAddress::raw(OUTSTATION_ADDR), acfg, Box::new(r), Box::new(c), Box::new(i)).await }, polls.clone()));
+        let jh = tokio::spawn(Counted::new(
+            async move {
+                ch.add_association(
+                    EndpointAddress::raw(OUTSTATION_ADDR),
+                    acfg,
+                    Box::new(r),
+                    Box::new(c),
+                    Box::new(i),
+                )
+                .await
+            },
+            polls.clone(),
+        ));
         settle(&polls).await;
-        let assoc = jh.await.expect("add_association task").expect("add_association");
+        let assoc = jh
+            .await
+            .expect("add_association task")
+            .expect("add_association");
         let _ = &mut channel;
         let mut rig = PairRig {
             cfg,
@@ -284,7 +343,10 @@ impl PairRig {
             clock,
             conns,
             master_task: Some(master_task),
-            ctl: Arc::new(Mutex::new(ProxyCtl { closed: true, ..Default::default() })),
+            ctl: Arc::new(Mutex::new(ProxyCtl {
+                closed: true,
+                ..Default::default()
+            })),
             wake: Arc::new(tokio::sync::Notify::new()),
             delay_ms: [0, 0],
             chunking: [vec![], vec![]],
@@ -296,7 +358,9 @@ impl PairRig {
     }
 
     pub fn now_ms(&self) -> u64 {
-        tokio::time::Instant::now().duration_since(self.start).as_millis() as u64
+        tokio::time::Instant::now()
+            .duration_since(self.start)
+            .as_millis() as u64
     }
 
     pub fn connected(&self) -> bool {
@@ -319,7 +383,10 @@ impl PairRig {
         let (io_m, peer_m) = pipe(false);
         let (io_o, peer_o) = pipe(false);
         self.session_id += 1;
-        let _ = self.sessions.send(NewSession::new(self.session_id, PhysLayer::Verif(io_o))).await;
+        let _ = self
+            .sessions
+            .send(NewSession::new(self.session_id, PhysLayer::Verif(io_o)))
+            .await;
         if half {
             settle(&self.polls).await;
             self.ctl.lock().unwrap().cut = true;
@@ -334,9 +401,22 @@ impl PairRig {
             }
         }
         let _ = self.conns.send(PhysLayer::Verif(io_m));
-        self.ctl = Arc::new(Mutex::new(ProxyCtl { delay_ms: self.delay_ms, chunking: self.chunking.clone(), ..Default::default() }));
+        self.ctl = Arc::new(Mutex::new(ProxyCtl {
+            delay_ms: self.delay_ms,
+            chunking: self.chunking.clone(),
+            ..Default::default()
+        }));
         self.wake = Arc::new(tokio::sync::Notify::new());
-        tokio::spawn(Counted::new(proxy(peer_m, peer_o, self.ctl.clone(), self.wake.clone(), self.start), self.polls.clone()));
+        tokio::spawn(Counted::new(
+            proxy(
+                peer_m,
+                peer_o,
+                self.ctl.clone(),
+                self.wake.clone(),
+                self.start,
+            ),
+            self.polls.clone(),
+        ));
         self.settle().await;
     }
 
@@ -370,7 +450,11 @@ impl PairRig {
 
     /// deliver bytes to one endpoint as if the other had sent them (0 = towards the outstation, 1 = towards the master)
     pub async fn inject(&mut self, dir: usize, bytes: Vec<u8>) {
-        self.ctl.lock().unwrap().inject.push(((dir % 2) as u8, bytes));
+        self.ctl
+            .lock()
+            .unwrap()
+            .inject
+            .push(((dir % 2) as u8, bytes));
         self.wake.notify_one();
         self.settle().await;
     }
@@ -398,16 +482,25 @@ impl PairRig {
     }
 
     async fn check_tasks(&mut self) {
-        for (which, slot) in [("outstation", &mut self.out_task), ("master", &mut self.master_task)] {
+        for (which, slot) in [
+            ("outstation", &mut self.out_task),
+            ("master", &mut self.master_task),
+        ] {
             if let Some(t) = slot {
                 if t.is_finished() {
                     let t = slot.take().unwrap();
                     let fail = match t.await {
-                        Ok(()) => Fail::new("task-ended", format!("the {which} task returned although it was never shut down")),
+                        Ok(()) => Fail::new(
+                            "task-ended",
+                            format!("the {which} task returned although it was never shut down"),
+                        ),
                         Err(e) => {
-                            let text = engine::take_panic().unwrap_or_else(|| format!("panic@?: {e}"));
+                            let text =
+                                engine::take_panic().unwrap_or_else(|| format!("panic@?: {e}"));
                             if text.contains("verif-spin") {
-                                Fail::new("spin", text.clone()).with_sig(format!("spin: {which} task busy-loops without time advancing"))
+                                Fail::new("spin", text.clone()).with_sig(format!(
+                                    "spin: {which} task busy-loops without time advancing"
+                                ))
                             } else {
                                 engine::panic_fail(&text)
                             }
